@@ -45,7 +45,7 @@ def ref_resolve(e, packages, resolve_packages: bool, replace_time: bool, inside_
 
 def flat(e):
     """Grouping inside a run of one operator is unspecified (C01): compare modulo flattening."""
-    if e[0] in ("key", "pkg", "time", "tree"):
+    if e[0] in ("key", "pkg", "time", "tree", "not-a-tree") or len(e) != 3:
         return e
     items = []
 
